@@ -88,8 +88,18 @@ RESOLVE_SET = frozenset(SHORTENER_SET | set(d.lower() for d in SHOULD_RESOLVE_DO
 FACEBOOK_DOMAINS = ["facebook.com", "facebook.fr", "facebook.co", "fb.me"]  # pattern: facebook.<one label> and fb.me
 
 
+def _label(l):
+    """a label written in punycode is the label it encodes (decoded on its own: an undecodable neighbour changes nothing)"""
+    if l[:4] == "xn--":
+        try:
+            return l.encode("ascii").decode("idna")
+        except (UnicodeError, ValueError):
+            pass
+    return l
+
+
 def suffix_member(host, domains):
-    ls = host.lower().split(".")
+    ls = [_label(l) for l in host.lower().split(".")]
     for n in range(1, len(ls) + 1):
         if ".".join(ls[-n:]) in domains:
             return True
@@ -375,6 +385,23 @@ def mutations(d):
     yield "foreign-suffix", d + ".evil.fr"
     yield "sub-foreign-suffix", "www." + d + ".evil.fr"
     yield "dot-replaced", d.replace(".", "x", 1)
+    if any(ord(c) > 127 for c in d):
+        # an internationalized domain as it travels on the wire (punycode), alone and behind labels that are raw non-ASCII / not decodable
+        try:
+            ace = d.encode("idna").decode("ascii")
+        except UnicodeError:
+            ace = None
+        if ace:
+            yield "punycode", ace
+            yield "punycode-upper", ace.upper()
+            yield "punycode-sub-raw", "caf\xe9." + ace
+            yield "punycode-sub-undecodable", "xn--ii." + ace
+            yield "sub-undecodable", "xn--ii." + d
+            yield "punycode-glued", "not" + ace
+    # letters that only case-fold to the ASCII ones (dotless i, long s): another domain
+    for a, b in (("i", "\u0131"), ("s", "\u017f")):
+        if a in d:
+            yield "unicode-lookalike", d.replace(a, b, 1)
 
 
 def reduced(i, D, wide=False):
